@@ -16,8 +16,12 @@ Record cc_cfg := { cc_url : string; cc_id : string; cc_secret : string; cc_scope
                    cc_ttl : option Z; cc_body_auth : bool }.
 
 (** the code writes id, secret, url and strings.Join(scopes, ""): the same bytes as one write per scope *)
+(** since 8647e06 nine more bytes: flag and ttl (zeros if no ttl is configured) *)
+Definition cc_ttl_bytes (t : option Z) : string :=
+  match t with None => String zero (le64 0) | Some z => String one (le64 z) end.
+
 Definition cc_fields (c : cc_cfg) : list fld :=
-  [FV (cc_id c); FV (cc_secret c); FV (cc_url c)] ++ map FV (cc_scopes c).
+  [FV (cc_id c); FV (cc_secret c); FV (cc_url c)] ++ map FV (cc_scopes c) ++ [FX (cc_ttl_bytes (cc_ttl c))].
 
 Definition cc_enabled (c : cc_cfg) : bool :=
   match cc_ttl c with None => true | Some t => (t >? 0)%Z end.
@@ -238,7 +242,7 @@ Definition jk_ep_fields (c : jk_cfg) : list fld :=
   [FV (jurl_text (jk_url c)); FV "GET"] ++ kv_fields (jk_headers c).
 
 Definition jk_fields (H : string -> string) (c : jk_cfg) (t : jtok) : list fld :=
-  [FX (H (cat (jk_ep_fields c))); FV (jurl_render (jk_url c) (t_iss t)); FV (t_kid t)].
+  [FX (H (cat (jk_ep_fields c))); FV (jurl_render (jk_url c) (t_iss t)); FV (t_kid t); FX (ttl_hash (jk_ttl c))].
 
 Definition jk_enabled (c : jk_cfg) : bool := match jk_ttl c with None => true | Some x => (x >? 0)%Z end.
 
@@ -277,14 +281,21 @@ Definition jk_fresh (w : jwks_world) (c : jk_cfg) (t : jtok) : outcome :=
   end.
 
 (** getKey + verifyTokenWithKey: a fetched key that passes validateJWK is cached whatever the signature
-    verification says; a cached key is used without validateJWK ([fx11]: candidate repair, validated on a hit too) *)
+    verification says; a cached key is used without validateJWK ([fx11]: repair d20d7cd, validated on a hit too) *)
 Definition jk_exec (fx11 : bool) (H : string -> string) (w : jwks_world) (cch : cache) (c : jk_cfg) (t : jtok) : sres * cache :=
   match jk_key H c t with
   | None => ({| sr_key := None; sr_hit := false; sr_calls := 1; sr_out := jk_fresh w c t |}, cch)
   | Some k =>
     match lookup k cch with
-    | Some r => ({| sr_key := Some k; sr_hit := true; sr_calls := 0;
-                    sr_out := if fx11 && jk_rejects c (rs_active r) then ODeny else jk_decide (rs_sub r) t |}, cch)
+    | Some r =>
+      if fx11 && jk_rejects c (rs_active r)
+      then (* d20d7cd: the cached key does not pass this instance's validation: it is ignored and the key fetched *)
+        ({| sr_key := Some k; sr_hit := true; sr_calls := 1; sr_out := jk_fresh w c t |},
+         match jk_lookup w c t with
+         | JKKey o tr => if jk_rejects c tr then cch else (k, jk_key_result o tr) :: cch
+         | _ => cch
+         end)
+      else ({| sr_key := Some k; sr_hit := true; sr_calls := 0; sr_out := jk_decide (rs_sub r) t |}, cch)
     | None =>
       ({| sr_key := Some k; sr_hit := false; sr_calls := 1; sr_out := jk_fresh w c t |},
        match jk_lookup w c t with
